@@ -57,6 +57,7 @@ type Gen struct {
 	ninl     int
 	inlined  []string
 	knownFns map[string]bool // function keys recorded in locks/functions.json (root Gen only)
+	loopVariants map[string]string // loops with a recorded termination argument (nil: not demanded)
 	outer    *Env            // inlined callee: the caller's variables at the call
 	outerAlias map[string]string
 	aliasOf map[string]string                       // renamed variables of fn: recorded name -> current name
@@ -1132,6 +1133,13 @@ func (g *Gen) autoBounds(b *ssa.BasicBlock) []autoBound {
 
 func (g *Gen) loopHead(b *ssa.BasicBlock, pass1 map[int]map[string]bool) {
 	h := b.Index
+	if g.loopVariants != nil && g.pass == 2 && strings.HasPrefix(b.Comment, "for.") {
+		name := fmt.Sprintf("loop%d", g.headOrd[h])
+		if _, ok := g.loopVariants[g.key+"#"+name]; !ok {
+			// a `for` loop without a termination argument on a path where every operation has to be bounded
+			g.oblige("termination", name, "", []string{g.prop}, false, "false", ab0pos(b))
+		}
+	}
 	// initial values of header phis (merged from forward edges)
 	var phis []*ssa.Phi
 	for _, in := range b.Instrs {
